@@ -6,6 +6,8 @@
                             for refactor patches), revert. Never leaves /repo modified.
 """
 import importlib.util, json, os, re, subprocess, sys, time
+sys.path.insert(0, os.path.dirname(os.path.abspath(__file__)))
+import scratch
 V = os.path.dirname(os.path.dirname(os.path.abspath(__file__)))
 REPO = '/repo'
 MD = os.path.join(V, 'selftest', 'mutants')
@@ -61,7 +63,7 @@ def all_specs():
 
 
 def run(only=None):
-    assert clean(), '/repo not clean'
+    scratch.prepare()       # patches are tried on a scratch copy; /repo itself is never modified by `run`
     res = []
     for m in all_specs():
         pidl = m['pid'] if isinstance(m['pid'], list) else [m['pid']]
@@ -71,7 +73,7 @@ def run(only=None):
         if not os.path.exists(patch):
             print('%s: no patch' % m['id'])
             continue
-        a = sh('git -C %s apply %s' % (REPO, patch))
+        a = scratch.apply(patch)
         if a.returncode != 0:
             print('%s: STALE (patch does not apply)' % m['id'])
             res.append((m['id'], 'stale'))
@@ -82,7 +84,7 @@ def run(only=None):
             out = ''
             rc = 0
             for pid in pids:
-                r = sh('%s/check %s quick' % (V, pid), cwd=V)
+                r = sh('%s/check %s quick' % (V, pid), cwd=V, env=scratch.env())
                 out += r.stdout
                 rc = max(rc, r.returncode)
             fails = [l for l in out.splitlines() if l.strip().startswith('FAIL')]
@@ -99,7 +101,7 @@ def run(only=None):
                 print(out[-1500:])
             res.append((m['id'], verdict))
         finally:
-            sh('git -C %s checkout -- .' % REPO)
+            scratch.revert(patch)
     bad = [r for r in res if r[1] not in ('detected', 'silent-ok')]
     print('summary: %d run, %d not as expected: %s' % (len(res), len(bad), bad))
     return 0 if not bad else 1
